@@ -111,7 +111,7 @@ def main():
         "distinct_positions": max(p["distinct_positions"] for p in parts),
         "distinct_positions_capped": any(p["distinct_positions_capped"] for p in parts),
         "distinct_op_trigrams": max(p["distinct_op_trigrams"] for p in parts),
-        "max_accepted_pushes_in_one_run": max(p["longest_game_plies"] for p in parts),
+        "max_accepted_pushes_in_one_run": max(p["max_accepted_pushes_in_one_run"] for p in parts),
         "profiles_run": [p["profile"] for p in parts],
         "batch_digests": {p["profile"]: p["batch_digest"] for p in parts},
         "components": {
